@@ -30,6 +30,8 @@ def bfs(block, static, cfg, init, moves, to_init, limit=4000, tag="bfs"):
             case = {"block": block, "static": static, "cfg": cfg, "init": a, "steps": [step], "every": 1, "src": tag}
             if a is init and not cases:
                 case["root"] = True
+            if tag == "bfs-drawn":
+                case["twin"] = True
             cases.append(case)
             case["every"] = 0          # light observation (descriptor, applied method, returned values) ...
             try:
@@ -184,6 +186,9 @@ def generate_cases(tier, rng):
     for g in GENERATORS:
         c, e = g(tier, rng)
         cases += c; ex &= e
+    for c in cases:                       # walks also replay every applied mutation on a twin (HPO: same mutation on the critic)
+        if c.get("src") == "walk" and c["block"] not in ("netmulti", "netany"):
+            c["twin"] = True
     return cases, ex
 
 
@@ -243,7 +248,16 @@ def gen_cnn(tier, rng):
         for _ in range(ln):
             m = rng.choice(["add_layer", "remove_layer", "change_kernel", "change_kernel", "add_channel", "remove_channel"])
             steps.append(S(m, (rng.randrange(1000), rng.randrange(1000))))
+        if w % 2 == 1:
+            static["tuple_kernels"] = True
         cases.append({"block": "cnn", "static": static, "cfg": cfg, "init": init, "steps": steps, "every": 10, "src": "walk"})
+    # kernel sizes given as tuples + explicit change_kernel arguments (what Mutations passes on to the other networks)
+    st = {"input_shape": [2, 20, 20], "num_outputs": 3, "layer_norm": False, "init_layers": False, "tuple_kernels": True}
+    ccfg = {"min_hidden_layers": 1, "max_hidden_layers": 4, "min_channel_size": 8, "max_channel_size": 64}
+    cases.append({"block": "cnn", "static": st, "cfg": ccfg, "init": {"channels": [8, 8], "kernels": [3, 3], "strides": [1, 1]},
+                  "steps": [S("change_kernel", (0, 1)), S("change_kernel", (0, 0), kernel_size=2, hidden_layer=1), S("add_layer", (1, 0)),
+                            S("change_kernel", (1, 2)), S("remove_layer", (0, 0)), S("add_channel", (1, 1)), S("change_kernel", (0, 0), kernel_size=1, hidden_layer=0)],
+                  "every": 1, "src": "walk"})
     return cases, ex
 
 
@@ -346,6 +360,13 @@ def gen_net(tier, rng):
         steps = [S(rng.choice(meths), (rng.randrange(1000), rng.randrange(1000))) for _ in range(ln)]
         cases.append({"block": "net", "net": n, "obs": o, "clone": True, "static": {}, "cfg": c, "init": i, "steps": steps,
                       "every": 4, "src": "walk"})
+    # latent width at / next to its bounds (strict guards on both sides), every amount the methods can draw
+    for lat, meth in ((120, "add_latent_node"), (96, "add_latent_node"), (16, "remove_latent_node"), (40, "remove_latent_node")):
+        for n in ("q", "stoch"):
+            cases.append({"block": "net", "net": n, "obs": "vector", "clone": True, "static": {},
+                          "cfg": {"min_latent_dim": 8, "max_latent_dim": 128, "encoder_config": {}, "head_config": {}},
+                          "init": {"latent": lat, "enc": {"layers": 1, "widths": [64]}, "head": [64]},
+                          "steps": [S(meth, (0, r)) for r in (0, 1, 2)] + [S("head_net.add_node", (0, 2)), S(meth, (0, 0))], "every": 2, "src": "walk"})
     # the minimal partial configuration of the reconnaissance (R20)
     for n in ("q", "value", "det"):
         cases.append({"block": "net", "net": n, "obs": "vector", "clone": True, "static": {},
